@@ -15,16 +15,16 @@ theorem consts_ok_log_sink : Generated.LOG_WRITER_IS_STDERR = true := by decide
 theorem consts_ok_error_events : Generated.EMITS_ERROR_EVENTS = true := by decide
 
 /-- The summary counters equal the number of events of each kind, for every run. -/
-theorem counters_eq_events (cfg : Cfg) (scan : List SEntry) (dst : Map DNode) (n : Nat) :
-    (run cfg scan dst n).created = countAct .create (run cfg scan dst n).events ∧
-    (run cfg scan dst n).updated = countAct .update (run cfg scan dst n).events ∧
-    (run cfg scan dst n).skipped = countAct .skip (run cfg scan dst n).events ∧
-    (run cfg scan dst n).deleted = countAct .delete (run cfg scan dst n).events := by
-  unfold run
+theorem counters_eq_events (cfg : Cfg) (flt : Faults) (scan : List SEntry) (dst : Map DNode) (n : Nat) :
+    (runF cfg flt scan dst n).created = countAct .create (runF cfg flt scan dst n).events ∧
+    (runF cfg flt scan dst n).updated = countAct .update (runF cfg flt scan dst n).events ∧
+    (runF cfg flt scan dst n).skipped = countAct .skip (runF cfg flt scan dst n).events ∧
+    (runF cfg flt scan dst n).deleted = countAct .delete (runF cfg flt scan dst n).events := by
+  unfold runF
   simp only
   split
   · simp [countAct]
-  · have inv := foldl_execTask_bookInv cfg (plan cfg scan dst) (initExec dst n) (initExec_bookInv dst n)
+  · have inv := foldl_execTask_bookInv cfg flt (plan cfg scan dst) (initExec dst n) (initExec_bookInv dst n)
     have hrev : ∀ a (l : List (Act × Path)), countAct a l.reverse = countAct a l := by
       intro a l; simp [countAct, List.filter_reverse]
     simp only [hrev]
@@ -32,26 +32,26 @@ theorem counters_eq_events (cfg : Cfg) (scan : List SEntry) (dst : Map DNode) (n
 
 /-- Every planned task is represented in the report exactly once: as an action event or as an
     error — a failed file is never simply missing from the stream. -/
-theorem failures_reported (cfg : Cfg) (scan : List SEntry) (dst : Map DNode) (n : Nat)
-    (h : (run cfg scan dst n).refused = false) :
-    (run cfg scan dst n).events.length + (run cfg scan dst n).errors.length
-      = (run cfg scan dst n).tasks.length := by
-  unfold run at h ⊢
+theorem failures_reported (cfg : Cfg) (flt : Faults) (scan : List SEntry) (dst : Map DNode) (n : Nat)
+    (h : (runF cfg flt scan dst n).refused = false) :
+    (runF cfg flt scan dst n).events.length + (runF cfg flt scan dst n).errors.length
+      = (runF cfg flt scan dst n).tasks.length := by
+  unfold runF at h ⊢
   simp only at h ⊢
   split
   · rename_i hg; simp [hg] at h
-  · have := foldl_execTask_accounted cfg (plan cfg scan dst) (initExec dst n)
+  · have := foldl_execTask_accounted cfg flt (plan cfg scan dst) (initExec dst n)
     simp only [List.length_reverse]
     simpa [initExec] using this
 
 /-- A dry run reports every planned task as an event and nothing as an error. -/
-theorem dry_run_reports_plan (cfg : Cfg) (scan : List SEntry) (dst : Map DNode) (n : Nat)
-    (hd : cfg.dryRun = true) (h : (run cfg scan dst n).refused = false) :
-    (run cfg scan dst n).events = (plan cfg scan dst).map fun t => (t.act, t.rel) := by
-  unfold run at h ⊢
+theorem dry_run_reports_plan (cfg : Cfg) (flt : Faults) (scan : List SEntry) (dst : Map DNode) (n : Nat)
+    (hd : cfg.dryRun = true) (h : (runF cfg flt scan dst n).refused = false) :
+    (runF cfg flt scan dst n).events = (plan cfg scan dst).map fun t => (t.act, t.rel) := by
+  unfold runF at h ⊢
   simp only at h ⊢
   split
   · rename_i hg; simp [hg] at h
-  · simp only [foldl_execTask_dry_events cfg hd, initExec, List.append_nil, List.reverse_reverse]
+  · simp only [foldl_execTask_dry_events cfg flt hd, initExec, List.append_nil, List.reverse_reverse]
 
 end SyModel.Props.C19
